@@ -14,6 +14,14 @@ ASSERT = {"AssertDivideByZero": "DivZero", "AssertNegativeShift": "NegShift",
           "AssertNilDeref": "NilDeref", "AssertSliceRange": "SliceRange"}
 
 
+def _bin(op, flags, w, a, b):
+    """binary instruction; nsw / nuw / exact change the semantics (poison) and are kept: IBinF"""
+    fl = (1 if " nsw" in flags else 0) | (2 if " nuw" in flags else 0) | (4 if " exact" in flags else 0)
+    if fl:
+        return "IBinF %s %d%%N %d (%s) (%s)" % (op, fl, w, a, b)
+    return "IBin %s %d (%s) (%s)" % (op, w, a, b)
+
+
 def split_functions(ir):
     """{name: (params_text, [body lines])} for every `define`"""
     fns = {}
@@ -127,14 +135,14 @@ def translate(params, lines):
                 return None, "assert operand"
             body.append("IAssert %s (%s)" % (ASSERT[m.group(1)], o))
             continue
-        m = re.fullmatch(r"%(\d+) = (\w+)(?: nsw| nuw| exact)* (i\d+) (\S+), (\S+)", s)
+        m = re.fullmatch(r"%(\d+) = (\w+)((?: nsw| nuw| exact)*) (i\d+) (\S+), (\S+)", s)
         if m and m.group(2) in BIN:
             if not numbered(m):
                 return None, "value numbering " + s
-            a, b = _op(m.group(4)), _op(m.group(5))
+            a, b = _op(m.group(5)), _op(m.group(6))
             if a is None or b is None:
                 return None, "operand " + s
-            body.append("IBin %s %d (%s) (%s)" % (BIN[m.group(2)], _w(m.group(3)), a, b))
+            body.append(_bin(BIN[m.group(2)], m.group(3), _w(m.group(4)), a, b))
             continue
         m = re.fullmatch(r"%(\d+) = icmp (\w+) (i\d+) (\S+), (\S+)", s)
         if m and m.group(2) in PRED:
@@ -259,13 +267,13 @@ def translate_check_prefix(params, lines):
                 return None, None, "extractvalue index"
             vmap[int(m.group(1))] = base + int(m.group(3))
             continue
-        m = re.fullmatch(r"%(\d+) = (\w+)(?: nsw| nuw| exact)* (i\d+) (\S+), (\S+)", s)
+        m = re.fullmatch(r"%(\d+) = (\w+)((?: nsw| nuw| exact)*) (i\d+) (\S+), (\S+)", s)
         if m and m.group(2) in BIN:
-            a, b = op(m.group(4)), op(m.group(5))
+            a, b = op(m.group(5)), op(m.group(6))
             if a is None or b is None:
                 return None, None, "operand " + s
             define(int(m.group(1)))
-            body.append("IBin %s %d (%s) (%s)" % (BIN[m.group(2)], _w(m.group(3)), a, b))
+            body.append(_bin(BIN[m.group(2)], m.group(3), _w(m.group(4)), a, b))
             continue
         m = re.fullmatch(r"%(\d+) = icmp (\w+) (i\d+) (\S+), (\S+)", s)
         if m and m.group(2) in PRED:
